@@ -8,6 +8,18 @@ for l in open('/verif/properties.jsonl'):
     if p['id'] == pid:
         break
 wt = "/tmp/wt/%s%s" % (pid.lower(), "" if labels[0] == "m1" else "r" + labels[0])
+import glob, os
+used = []
+for d in sorted(glob.glob('/verif/seeded/%s-m*' % pid)):
+    if os.path.basename(d).split('-')[1] in labels:
+        continue
+    try:
+        used.append("- " + json.load(open(d + '/meta.json'))['summary'][:260].replace("\n", " "))
+    except Exception:
+        pass
+used_txt = ""
+if used and labels[0] != "m1":
+    used_txt = "\n## Already used in earlier rounds (do NOT repeat these or near-variants of them; pick other code sites and other mechanisms)\n" + "\n".join(used) + "\n"
 print(f"""You are helping to evaluate how well a semantic property of the C++ library libtins (mfontanini/libtins: packet crafting/parsing library) is protected against regressions. Your job: produce TWO different, realistic code changes ("mutations") to libtins, each of which BREAKS the property below while the library STILL COMPILES and the EXISTING TEST SUITE STILL PASSES, and for each a small demonstration program that fails with the change and passes without it.
 
 ## The property ({p['id']}: {p['title']})
@@ -33,6 +45,7 @@ There is no network access. Work only under {wt} and /tmp/wt/out/{pid}/.
 - The two mutations should use different mechanisms / different code sites (e.g. one a dropped or weakened check, the other a bookkeeping/ordering/table mistake), both breaking THIS property.
 - Memory-safety violations may be demonstrated with -fsanitize=address (build the demo and, if needed, rebuild the library objects you need with ASan), or by an observable wrong result.
 
+{used_txt}
 ## Deliverables (write them to /tmp/wt/out/{pid}/{labels[0]}/ and /tmp/wt/out/{pid}/{labels[1]}/)
 For each mutation mN:
   - patch.diff : `git diff` of the worktree for that mutation alone (relative to HEAD; must apply with `git apply` at the repo root)
